@@ -815,7 +815,7 @@ func genMultipart(ctx *hx.Ctx, emit func(hx.Case)) {
 
 var c06Names = []string{"a", "b", "c", "d"}
 
-func randSchema(r *hx.Rng, depth int) map[string]any {
+func c06RandSchema(r *hx.Rng, depth int) map[string]any {
 	s := sch()
 	tys := []string{"string", "integer", "number", "boolean", "object", "array"}
 	if depth <= 0 {
@@ -838,13 +838,13 @@ func randSchema(r *hx.Rng, depth int) map[string]any {
 		}
 	case "array":
 		if r.Chance(85) {
-			s["items"] = randSchema(r, depth-1)
+			s["items"] = c06RandSchema(r, depth-1)
 		}
 	case "object":
 		props := []any{}
 		for _, n := range c06Names[:1+r.Intn(4)] {
 			if r.Chance(70) {
-				p := randSchema(r, depth-1)
+				p := c06RandSchema(r, depth-1)
 				if r.Chance(30) {
 					p["ro"] = true
 				} else if r.Chance(20) {
@@ -867,7 +867,7 @@ func randSchema(r *hx.Rng, depth int) map[string]any {
 	}
 	if s["ty"] == nil && r.Chance(30) && depth > 0 {
 		// untyped schema with object keywords
-		s["props"] = []any{[]any{"a", randSchema(r, depth-1)}}
+		s["props"] = []any{[]any{"a", c06RandSchema(r, depth-1)}}
 		if r.Chance(50) {
 			s["required"] = []any{"a"}
 		}
@@ -893,8 +893,8 @@ func randLeaf(r *hx.Rng) any {
 	return jO()
 }
 
-// randValue: a value directed by the schema (mostly valid), with mutations.
-func randValue(r *hx.Rng, s map[string]any, depth int) any {
+// c06RandValue: a value directed by the schema (mostly valid), with mutations.
+func c06RandValue(r *hx.Rng, s map[string]any, depth int) any {
 	if s == nil || r.Chance(8) {
 		return randLeaf(r)
 	}
@@ -931,7 +931,7 @@ func randValue(r *hx.Rng, s map[string]any, depth int) any {
 			it = m
 		}
 		for i, k := 0, r.Intn(4); i < k; i++ {
-			xs = append(xs, randValue(r, it, depth-1))
+			xs = append(xs, c06RandValue(r, it, depth-1))
 		}
 		return jA(xs...)
 	case "object":
@@ -961,7 +961,7 @@ func randValue(r *hx.Rng, s map[string]any, depth int) any {
 				if declared && jbool(p, "ro") && r.Chance(25) {
 					kvs = append(kvs, n, nil)
 				} else {
-					kvs = append(kvs, n, randValue(r, p, depth-1))
+					kvs = append(kvs, n, c06RandValue(r, p, depth-1))
 				}
 			}
 		}
@@ -999,15 +999,15 @@ func randCase0(r *hx.Rng) hx.Case {
 	exro := r.Chance(40)
 	switch {
 	case kind < 6: // JSON body against a set of media types
-		s := randSchema(r, 3)
+		s := c06RandSchema(r, 3)
 		if r.Chance(75) {
 			s["ty"] = "object"
 			if s["props"] == nil {
-				s2 := randSchema(r, 0)
+				s2 := c06RandSchema(r, 0)
 				s["props"] = []any{[]any{"a", s2}}
 			}
 		}
-		v := randValue(r, s, 3)
+		v := c06RandValue(r, s, 3)
 		text := renderJ(v, r.Chance(20), r.Chance(10))
 		switch r.Intn(25) {
 		case 0:
@@ -1036,7 +1036,7 @@ func randCase0(r *hx.Rng) hx.Case {
 				case 0:
 					ms = nil
 				case 1:
-					ms = randSchema(r, 1)
+					ms = c06RandSchema(r, 1)
 				}
 			}
 			content = append(content, mtEntry(k, ms))
@@ -1234,7 +1234,7 @@ func shrinkC06(c hx.Case) []hx.Case {
 		if s == nil {
 			continue
 		}
-		for _, s2 := range shrinkSchema(s) {
+		for _, s2 := range c06ShrinkSchema(s) {
 			x := cloneCase(c)
 			nl := append([]any{}, jlist(c["content"])...)
 			nm := map[string]any{}
@@ -1249,7 +1249,7 @@ func shrinkC06(c hx.Case) []hx.Case {
 	}
 	// smaller body: JSON structure
 	if jv, ok := body["json"].(map[string]any); ok && c06Base(ct) != "multipart/form-data" {
-		for _, v2 := range shrinkValue(jv["v"]) {
+		for _, v2 := range c06ShrinkValue(jv["v"]) {
 			withText(renderJ(v2, false, false))
 		}
 	}
@@ -1274,7 +1274,7 @@ func shrinkC06(c hx.Case) []hx.Case {
 	return out
 }
 
-func shrinkSchema(s map[string]any) []map[string]any {
+func c06ShrinkSchema(s map[string]any) []map[string]any {
 	var out []map[string]any
 	cp := func() map[string]any {
 		n := map[string]any{}
@@ -1292,7 +1292,7 @@ func shrinkSchema(s map[string]any) []map[string]any {
 		for i, kv := range ps {
 			p := jlist(kv)
 			if pm, ok := p[1].(map[string]any); ok {
-				for _, p2 := range shrinkSchema(pm) {
+				for _, p2 := range c06ShrinkSchema(pm) {
 					x := cp()
 					nl := append([]any{}, ps...)
 					nl[i] = []any{p[0], p2}
@@ -1317,7 +1317,7 @@ func shrinkSchema(s map[string]any) []map[string]any {
 		}
 	}
 	if it, ok := s["items"].(map[string]any); ok {
-		for _, i2 := range shrinkSchema(it) {
+		for _, i2 := range c06ShrinkSchema(it) {
 			x := cp()
 			x["items"] = i2
 			out = append(out, x)
@@ -1326,7 +1326,7 @@ func shrinkSchema(s map[string]any) []map[string]any {
 	return out
 }
 
-func shrinkValue(v any) []any {
+func c06ShrinkValue(v any) []any {
 	var out []any
 	m, ok := v.(map[string]any)
 	if !ok {
@@ -1339,7 +1339,7 @@ func shrinkValue(v any) []any {
 		}
 		for i, kv := range l {
 			p := jlist(kv)
-			for _, v2 := range shrinkValue(p[1]) {
+			for _, v2 := range c06ShrinkValue(p[1]) {
 				nl := append([]any{}, l...)
 				nl[i] = []any{p[0], v2}
 				out = append(out, map[string]any{"o": nl})
@@ -1352,7 +1352,7 @@ func shrinkValue(v any) []any {
 			out = append(out, map[string]any{"a": n})
 		}
 		for i, e := range l {
-			for _, v2 := range shrinkValue(e) {
+			for _, v2 := range c06ShrinkValue(e) {
 				nl := append([]any{}, l...)
 				nl[i] = v2
 				out = append(out, map[string]any{"a": nl})
